@@ -445,19 +445,23 @@ def get_results(tier):
 # ------------------------------------------------------------------ replay against the real crate
 REPLAY = os.path.join(BUILD, "replay-target", "release", "replay")
 SCENARIOS = {"take": ["take1", "take2", "take0", "take2L", "take2R"], "map": ["map", "mapL", "mapR"], "filter": ["filter", "filterR"], "scan": ["scan", "scanR"], "skip": ["skip1", "skip1R"], "from_iter": ["from_iter", "from_iterR"],
-             "concat": ["concat2", "concat3", "concat2R", "concat2L", "concat3L"], "concat0": ["concat0"], "flatten": ["flatten", "flattenL"], "merge": ["merge2", "merge3", "merge2X", "merge2L", "merge3L", "merge2R"],
+             "concat": ["concat2", "concat3", "concat2R", "concat2L", "concat3L"], "concat0": ["concat0"], "interval": ["interval"], "for_each": ["for_each", "for_eachL", "for_eachP", "for_eachPL"], "flatten": ["flatten", "flattenL"], "merge": ["merge2", "merge3", "merge2X", "merge2L", "merge3L", "merge2R"],
              "combine1": ["combine2", "combine2L"], "combine2": ["combine2", "combine2X", "combine2L"], "combine3": ["combine2", "combine2X", "combine2L"], "share": ["share2", "share3", "share3X", "share3XA", "share3L"]}
 # C13: two subscriptions of the same source value overlap (suffix O; Q = both started up front); the oracle is the
 # property statement: each subscription, replayed alone with the same decisions of its peers, sees the same
 OVERLAP_SCENARIOS = {"take": ["take2O", "take2OQ", "take2LOQ"], "map": ["mapO", "mapOQ", "mapLOQ"], "filter": ["filterO", "filterOQ"], "scan": ["scanO", "scanOQ", "scanLOQ"], "skip": ["skip1O", "skip1OQ"],
-                     "from_iter": ["from_iterO", "from_iterPO"], "concat": ["concat2O", "concat2OQ", "concat2LOQ", "concat2POQ"], "flatten": ["flattenO", "flattenOQ", "flattenLOQ", "flattenPLOQ"],
+                     "from_iter": ["from_iterO", "from_iterPO"], "interval": ["intervalO", "intervalOQ"], "concat": ["concat2O", "concat2OQ", "concat2LOQ", "concat2POQ"], "flatten": ["flattenO", "flattenOQ", "flattenLOQ", "flattenPLOQ"],
                      "merge": ["merge2O", "merge2OQ", "merge2LOQ"], "combine1": ["combine2OQ"], "combine2": ["combine2O", "combine2OQ", "combine2LOQ"], "combine3": ["combine2OQ"]}
 # scenarios in which the puppet sources are pullable (one answer per Pull) and the sink pulls only with none outstanding
 PULL_SCENARIOS = {"take": ["take2P", "take2PR"], "map": ["mapP", "mapPR"], "filter": ["filterP", "filterPR"], "scan": ["scanP", "scanPR"], "skip": ["skip1P", "skip1PR"], "from_iter": ["from_iterP"], "concat": ["concat2P", "concat3P"], "flatten": ["flattenP", "flattenPL"]}
 
 
-def build_replay():
-    """(re)build the replay harness against the current working tree of the repository under check"""
+REPLAY_T = os.path.join(BUILD, "replay-target-t", "release", "replay")
+
+
+def build_replay(tracing=False):
+    """(re)build the replay harness against the current working tree of the repository under check
+    (tracing=True: the crate with its `tracing` feature, under a subscriber that enables everything)"""
     env = dict(os.environ, CARGO_NET_OFFLINE="true")
     env.pop("RUSTUP_TOOLCHAIN", None)
     manifest = os.path.join(VERIF, "replay", "Cargo.toml")
@@ -472,10 +476,47 @@ def build_replay():
         if os.path.exists(os.path.join(VERIF, "replay", "Cargo.lock")):
             shutil.copy(os.path.join(VERIF, "replay", "Cargo.lock"), os.path.join(d, "Cargo.lock"))
         manifest = os.path.join(d, "Cargo.toml")
+    if tracing:
+        p = sh(["cargo", "build", "--release", "--offline", "--features", "tracing", "--manifest-path", manifest, "--target-dir", os.path.join(BUILD, "replay-target-t")], env=env)
+        return p.returncode == 0
     p = sh(["cargo", "build", "--release", "--offline", "--manifest-path", manifest, "--target-dir", os.path.join(BUILD, "replay-target")], env=env)
     if p.returncode == 0:
         open(REPLAY + ".built-from", "w").write(replay_stamp())
     return p.returncode == 0
+
+
+def tracing_diff(template, secs=900):
+    """C20, bounded stand-in: the same tapes are run against the crate built without and with its `tracing` feature
+    (there under a subscriber that enables every span and event); what the peers see must be the same, tape by tape.
+    -> a hit (the first tape on which the two builds differ, with both transcripts) or None"""
+    if not build_replay(tracing=True):
+        return None
+    st = SEARCH_STATS.setdefault((template, "C20"), {"scenarios": [], "runs": 0, "runs_deepest_level": 0, "max_len": 9, "kind": "differential: every decision tape up to the bound is run against the crate built without and with `--features tracing` (all-enabling subscriber) and the transcripts of the peers are compared"})
+    for sc in list(SCENARIOS.get(template, [])) + PULL_SCENARIOS.get(template, []):
+        try:
+            a = subprocess.run([REPLAY, "sig", sc, "--len", "9", "--budget", "200000"], capture_output=True, text=True, timeout=secs).stdout
+            b = subprocess.run([REPLAY_T, "sig", sc, "--len", "9", "--budget", "200000"], capture_output=True, text=True, timeout=secs).stdout
+        except Exception:
+            continue
+        la, lb = a.splitlines(), b.splitlines()
+        st["scenarios"].append(sc + " (off vs on)")
+        st["runs"] += len(la) + len(lb)
+        st["runs_deepest_level"] += len(la)
+        if la == lb:
+            continue
+        k = next((i for i in range(min(len(la), len(lb))) if la[i] != lb[i]), min(len(la), len(lb)))
+        line = (la + lb)[k] if k >= len(la) else la[k]
+        tape = json.loads(line.split("\t")[0])
+        da = json.loads(subprocess.run([REPLAY, "run", sc, json.dumps(tape)], capture_output=True, text=True).stdout)
+        db = json.loads(subprocess.run([REPLAY_T, "run", sc, json.dumps(tape)], capture_output=True, text=True).stdout)
+        ha = [l for l in da.get("history", []) if not l.startswith("!!")]
+        hb = [l for l in db.get("history", []) if not l.startswith("!!")]
+        d = next((i for i in range(max(len(ha), len(hb))) if (ha[i:i + 1] != hb[i:i + 1])), 0)
+        what = f"with the `tracing` feature (every span and event enabled) the peers see {(hb[d:d + 1] or ['<nothing more>'])[0]!r} where without it they see {(ha[d:d + 1] or ['<nothing more>'])[0]!r} (line {d + 1}, same decisions of the peers)"
+        return {"scenario": sc, "tape": tape, "violations": [{"property": "C20", "what": what}],
+                "history": ["==== without the feature"] + ha + ["==== with --features tracing, every span and event enabled"] + hb,
+                "replay_cmd": f"{REPLAY} run {sc} '{json.dumps(tape)}'   # and the same with {REPLAY_T}", "runs": len(la) + len(lb)}
+    return None
 
 
 def replay_stamp():
@@ -597,6 +638,10 @@ def replay_search(template, pid, secs=900):
         return None
     if template in THREAD_SCENARIOS:
         return thread_search(template, pid, secs)
+    if pid == "C20":
+        d = tracing_diff(template, secs)
+        if d:
+            return d
     # histories of listed findings are not new violations
     excl = []
     for f in load_findings().get("findings", []):
@@ -606,7 +651,7 @@ def replay_search(template, pid, secs=900):
     scs = list(SCENARIOS.get(template, []))
     if pid in ("C14", "C06", "C15", "C09", "C11", "C07"):
         scs += PULL_SCENARIOS.get(template, [])
-    if pid == "C13":
+    if pid == "C13" or (pid == "C16" and template == "interval"):   # (C16: "counting from 0 independently of other subscriptions")
         scs += OVERLAP_SCENARIOS.get(template, [])
     st = SEARCH_STATS.setdefault((template, pid), {"scenarios": [], "runs": 0, "runs_deepest_level": 0, "max_len": 12, "kind": "exhaustive enumeration of decision tapes (iterative deepening) of the most general conformant peers against the real crate"})
     for sc in scs:
